@@ -201,7 +201,7 @@ def gen(rng, tier):
                 for a in pair:
                     for b in pair:
                         yield gen_placement(tree, {i: a, j: b}, L)
-    n = 500 if quick else 6000
+    n = 1500 if quick else 12000
     for _ in range(n // 3):
         yield gen_plain(rng)
     for _ in range(n):
